@@ -415,12 +415,49 @@ func ruleSibHoles(c *Ctx, r *R) {
 			}
 		}
 		for i, g := range gets {
-			ok := false
-			for _, h := range has {
-				if sameSSA(h.recv, g.recv, 0) && sameSSA(h.key, g.key, 0) {
-					ok = true
+			// the key is tested, or it is one of several keys (`from, to := j.name, k.name; if k.exists { from, to = to, from }`)
+			// each of which is tested
+			var covered func(k ssa.Value, depth int) bool
+			covered = func(k ssa.Value, depth int) bool {
+				for _, h := range has {
+					if sameSSA(h.recv, g.recv, 0) && sameSSA(h.key, k, 0) {
+						return true
+					}
 				}
+				// a helper that is handed the key (`arraySortMove(thisObject, from, to)`): tested in front of every call
+				if kp, isParam := k.(*ssa.Parameter); isParam && depth < 3 {
+					rp, _ := g.recv.(*ssa.Parameter)
+					return rp != nil && c.argAtAllCallSites(kp, func(arg ssa.Value, site ssa.CallInstruction) bool {
+						ri := paramIndex(rp)
+						if ri < 0 || ri >= len(site.Common().Args) {
+							return false
+						}
+						for _, b := range site.Parent().Blocks {
+							for _, ins := range b.Instrs {
+								call, ok := ins.(*ssa.Call)
+								if !ok {
+									continue
+								}
+								if callee := call.Call.StaticCallee(); callee != nil && callee.Name() == "hasProperty" && len(call.Call.Args) == 2 &&
+									sameSSA(call.Call.Args[0], site.Common().Args[ri], 0) && sameSSA(call.Call.Args[1], arg, 0) {
+									return true
+								}
+							}
+						}
+						return false
+					}, 0)
+				}
+				if phi, isPhi := k.(*ssa.Phi); isPhi && depth < 3 {
+					for _, e := range phi.Edges {
+						if !covered(e, depth+1) {
+							return false
+						}
+					}
+					return true
+				}
+				return false
 			}
+			ok := covered(g.key, 0)
 			key := fmt.Sprintf("%s:get#%d", ssaFuncName(fn), i+1)
 			r.check(ok, key, c.Pos(instrPos(g.ins)), "paired with hasProperty on the same receiver and key", fmt.Sprintf("%s (Array.prototype.%s) reads an element with [[Get]] but never tests [[HasProperty]] for that receiver and key: a hole is treated as an own `undefined` element (ES5 §15.4.4 algorithms test kPresent first)", ssaFuncName(fn), work[fn]))
 		}
